@@ -5,6 +5,7 @@
   c18.utf8 <hexpath>               -> 1|0
   c18.valid <hexpath>              -> 1|0
   c18.changes <tree> <tree>        -> d:<p>|a:<p>|m:<p> …  (tree = `p=kC,p=kC…` or `.`)
+  c18.statmatch <trust> <st ctime mtime size> <entry ctime mtime size>  -> 1|0   (times in ns)
   c18.run <step> <step> …          -> one output token per step
 
   steps of c18.run (fields separated by `:`; lists by `,`; `.` = empty list; paths in hex):
@@ -18,6 +19,7 @@
     e_create:<p>:<wfile> e_modify:<p>:<wfile> e_chmod:<p>:<wfile> e_delete:<p> e_rmtree:<p> e_mkdir:<p>
                                            the named working-directory edits (Edit) of the model   -> ok
     status                                 -> S:a=<p,…>|d=…|m=…|u=…|t=…   or err:<E>
+    statusn                                -> the same with untracked_files="normal" (directories end in 2f)
     index                                  -> I:<p>=<k><cid>/<ctime>/<mtime>/<size>,…
     files                                  -> W:<p>=<k><cid>,…
 -/
@@ -185,6 +187,7 @@ def step (st : St) (tok : String) : St × String :=
       ({ st with w := r.world }, match r.err with | none => "ok" | some e => s!"err:{e}")
     | none => (st, "bad-arg")
   | ["status"] => (st, showStatus (status cur st.w))
+  | ["statusn"] => (st, showStatus (statusNormal cur st.w))
   | ["index"] => (st, showIndex st.w.index)
   | ["files"] => (st, showFiles st.w.wd)
   | _ => (st, "bad-step")
@@ -214,6 +217,9 @@ def handle (op : String) (args : List String) : Option String :=
       | some p => showBool (validPath p) | none => "bad-arg"
   | "c18.changes", [a, b] => some <| match tree? a, tree? b with
       | some a, some b => "|".intercalate ((changes a b).map showChange)
+      | _, _ => "bad-arg"
+  | "c18.statmatch", [t, sc, sm, sz, ec, em, ez] => some <| match bool? t, [sc, sm, sz, ec, em, ez].mapM nat? with
+      | some t, some [sc, sm, sz, ec, em, ez] => showBool (statMatchesWith t ⟨sc, sm, sz⟩ ⟨ec, em, ez⟩)
       | _, _ => "bad-arg"
   | "c18.run", toks => some (run toks)
   | _, _ => none
